@@ -2,24 +2,27 @@
 (* Validates long recorded IndexedSet histories against ISet.tla. Every event   *)
 (* carries the call, its result, len(), and sampled reads: s[i] probes, index() *)
 (* probes, slices, membership; every so often the complete iteration order.     *)
+(* An event marked fork made a second object from the current one (frozen); the  *)
+(* trace goes on with one of the two and later events probe the other (twin),   *)
+(* which must keep reading as the frozen contents.                              *)
 EXTENDS ISet, TLC, Json, IOUtils
 Traces == JsonDeserialize(IOEnv.TRACE_FILE)
-VARIABLES tid, l, st
-vars == <<tid, l, st>>
+VARIABLES tid, l, st, frozen
+vars == <<tid, l, st, frozen>>
 Reads(s, ev) ==
     /\ ev.len = Len(s)
     /\ \A i \in 1..Len(ev.getitem) : ev.getitem[i][2] = PyIndex(s, ev.getitem[i][1])
     /\ \A i \in 1..Len(ev.index) : ev.index[i][2] = (IF ev.index[i][1] \in Elems(s) THEN Idx(s, ev.index[i][1]) - 1 ELSE -1)
     /\ \A i \in 1..Len(ev.slices) : ev.slices[i][2] = PySlice(s, ev.slices[i][1][1], ev.slices[i][1][2], ev.slices[i][1][3])
     /\ ev.hasfull => (ev.full = s /\ ev.fullrev = Rev(s))
-Init == tid \in 1..Len(Traces) /\ l = 1 /\ st = St(<<>>)
+Init == tid \in 1..Len(Traces) /\ l = 1 /\ st = St(<<>>) /\ frozen = <<>>
 Step == /\ l >= 1 /\ l <= Len(Traces[tid].ev)
         /\ LET ev == Traces[tid].ev[l]
                cand == Outcomes([st EXCEPT !.term = FALSE], ev.op)
-               ms == {o \in cand : o.r = ev.r /\ Reads(o.s.it, ev)} IN
-           IF ms # {} THEN \E o \in ms : st' = o.s /\ l' = l + 1 /\ tid' = tid
-           ELSE /\ PrintT(<<"REJECT", ToJson([tid |-> tid, l |-> l, st |-> st, exp |-> {[r |-> o.r, it |-> o.s.it] : o \in cand}])>>)
-                /\ l' = 0 /\ UNCHANGED <<tid, st>>
+               ms == {o \in cand : o.r = ev.r /\ Reads(o.s.it, ev) /\ (ev.hastwin => Reads(frozen, ev.twin))} IN
+           IF ms # {} THEN \E o \in ms : st' = o.s /\ l' = l + 1 /\ tid' = tid /\ frozen' = (IF ev.fork THEN o.s.it ELSE frozen)
+           ELSE /\ PrintT(<<"REJECT", ToJson([tid |-> tid, l |-> l, st |-> st, frozen |-> frozen, exp |-> {[r |-> o.r, it |-> o.s.it] : o \in cand}])>>)
+                /\ l' = 0 /\ UNCHANGED <<tid, st, frozen>>
 Spec == Init /\ [][Step]_vars
 Accept == (l = Len(Traces[tid].ev) + 1) => PrintT(<<"ACCEPT", tid>>)
 =============================================================================
